@@ -66,3 +66,56 @@ func ZZ_C10_UniqueReferences() {
 		}
 	}
 }
+
+// C10, "whatever the timing": two creates in flight together - for the same
+// subscriber (known or new) or for two subscribers, with the same consumer
+// name so that the references can only differ by the counter - under every
+// interleaving at scheduling-point granularity (bounded switches) return
+// different references, and each reference designates the record its own
+// create opened.
+//
+//gosx:property=C10 tier=quick unwind=40 timeout=30000 p.preempt=3 p.preempt.thorough=5
+func ZZ_C10_UniqueUnderConcurrency() {
+	p := zzSetup()
+	self := chf_context.GetSelf()
+	supiA, supiB := zzSupi, zzSupi
+	switch vx.Choice("scenario", 3) {
+	case 0:
+		zzCreate(p, "warmup", zzSupi)
+	case 1:
+	default:
+		supiB = zzSupi2
+	}
+	reqA := zzCreateReq("A", supiA)
+	reqB := zzCreateReq("B", supiB)
+	reqB.NfConsumerIdentification.NFName = reqA.NfConsumerIdentification.NFName
+	vx.Assume(reqA.ChargingId != reqB.ChargingId) // tells the two records apart
+	cA, cB := &gin.Context{}, &gin.Context{}
+	vx.Parallel(
+		func() { p.HandleChargingdataInitial(cA, reqA) },
+		func() { p.HandleChargingdataInitial(cB, reqB) },
+	)
+	vx.Assert("both creates answered 201", vx.HTTPStatus(cA) == 201 && vx.HTTPStatus(cB) == 201)
+	locA, locB := vx.HTTPHeader(cA, "Location"), vx.HTTPHeader(cB, "Location")
+	vx.Assert("creates in flight together return different session references", locA != locB)
+	for i, loc := range []string{locA, locB} {
+		supi, req := supiA, reqA
+		if i == 1 {
+			supi, req = supiB, reqB
+		}
+		if len(loc) <= len(zzRefPrefix) {
+			continue
+		}
+		ue, ok := self.ChfUeFindBySupi(supi)
+		if !ok {
+			vx.Fail("subscriber of an acknowledged session is in the pool")
+			continue
+		}
+		rec := ue.Cdr[loc[len(zzRefPrefix):]]
+		ok = rec != nil && rec.ChargingFunctionRecord != nil && rec.ChargingFunctionRecord.ChargingID != nil
+		vx.Assert("each reference designates a record", ok)
+		if ok {
+			vx.Assert("each reference designates the record its own create opened", rec.ChargingFunctionRecord.ChargingID.Value == int64(req.ChargingId))
+		}
+	}
+}
